@@ -195,3 +195,20 @@ Theorem C16_no_close_leaks :
             j_lock s = None /\ j_open s = 5.
 Proof. exact no_close_leaks. Qed.
 Print Assumptions C16_no_close_leaks.
+
+(* ---- ShellJob: an execution that never starts the shell (ctx already done, shell missing / not
+   executable) commits (its empty buffers, -1, Failure) and returns the launch error; once it is the
+   last committed execution a reader sees exactly that, whatever ran before, under any interleaving ---- *)
+Theorem C16_shell_not_started_outcome : forall (S : Type) (out err : S),
+  sh_commit S (NotStarted, out, err) = (out, err, (-1)%Z, go_StatusFailure) /\
+  sh_return S (NotStarted, out, err) = Some NotStarted /\
+  sh_status NotStarted <> go_StatusOK.
+Proof. exact sh_not_started_spec. Qed.
+Print Assumptions C16_shell_not_started_outcome.
+
+Theorem C16_shell_not_started_visible : forall (S : Type) (empty : S) cb tr (s : jstate (sh_outcome S)) t out err,
+  jrun no_body (sh_cfg cb) jinit tr = Some s -> j_lock s = None ->
+  j_last s = Some (t, (NotStarted, out, err)) ->
+  sh_visible empty s = (out, err, (-1)%Z, go_StatusFailure).
+Proof. exact sh_not_started_visible. Qed.
+Print Assumptions C16_shell_not_started_visible.
